@@ -236,6 +236,7 @@ GENS = {
     "Monotone": {"name": "Gen_Monotone", "module": "Gen_Monotone.tla", "cfg": "Gen_Monotone.cfg", "cfg_thorough": "Gen_Monotone_thorough.cfg", "scenario": "mono"},
     "Builder": {"name": "Gen_Builder", "module": "Gen_Builder.tla", "cfg": "Gen_Builder.cfg", "scenario": "script"},
     "Buffers": {"name": "Gen_Buffers", "module": "Gen_Buffers.tla", "cfg": "Gen_Buffers.cfg", "scenario": "script"},
+    "DimTypes": {"name": "Gen_DimTypes", "module": "Gen_DimTypes.tla", "cfg": "Gen_DimTypes.cfg", "scenario": "script", "reset_every": 0},
     "Lookup": {"name": "Gen_Lookup", "module": "Gen_Lookup.tla", "cfg": "Gen_Lookup.cfg", "cfg_thorough": "Gen_Lookup_thorough.cfg", "scenario": "lower"},
 }
 
@@ -261,7 +262,7 @@ PROP_MODELS = {
     "C19": ["DimTypes", "DimTypesNeg"],
     "C20": ["Linear", "Bilinear"],
 }
-PROP_GENS = {"C12": ["Monotone"], "C11": ["Lookup"], "C10": ["Builder"], "C14": ["Buffers"], "C13": ["Buffers"]}
+PROP_GENS = {"C12": ["Monotone"], "C11": ["Lookup"], "C10": ["Builder"], "C14": ["Buffers"], "C13": ["Buffers"], "C19": ["DimTypes"]}
 
 for _p, _ms in PROP_MODELS.items():
     PROPS[_p]["mc"] = [MODELS[m] for m in _ms]
